@@ -12,7 +12,7 @@ import itertools
 import threading
 import time
 
-from lib import sched, stuck, vtime, wire
+from lib import gen, sched, stuck, vtime, wire
 
 PROPERTY = "C05"
 LEVEL = "exploration"
@@ -52,7 +52,7 @@ class Run:
         self.open_req = None
         self.model = {NC}          # set of admissible states
         self.hist = []
-        self.sysgen = itertools.count(0x10000 + ctx.rng.randrange(1 << 20) * 16)
+        self.sysgen = gen.system_bytes(ctx.rng, 0x10000 + ctx.rng.randrange(1 << 20) * 16)
         self.seen = 0              # index into all_frames()
         self.seen_delivered = 0
         self.injected_connected = 0
